@@ -88,6 +88,15 @@ def generate(rng, tier):
                     if kind == "casename" and nm_i.swapcase() == nm_i: continue
                     ev = nom[:i] + repl + nom[i + 1:]
                     add([c, S.random_call(rng)], [ev, S.nominal(("status",), rng)], "%s@%d/%s" % (kind, i, m))
+                if isinstance(nom[i], tuple) or i == 0:
+                    # the same request was answered properly a moment ago, and now the board stays silent (or the link drops) at this
+                    # exchange: the earlier reply must not stand in for the missing one
+                    kind, repl = rng.choice([("silence", ["E"] * 30), ("silence", ["E"] * 30), ("fault", ["F"])])
+                    ev = (nom[:i] + repl + nom[i + 1:]) if isinstance(nom[i], tuple) else (["E"] + ["E"] * 30)
+                    tnm = c[1].strip().upper() if c[0] == "command" and isinstance(c[1], str) else ""
+                    exempt = c[0] in ("reboot", "bootload") or tnm in ("R", "RB", "BL")
+                    if not exempt:
+                        add([c, c, S.random_call(rng)], [nom, ev, S.nominal(("status",), rng)], "after-its-own-success/%s@%d/%s" % (kind, i, m), [_expected(c, nom), "FAIL", "SKIP"])
                 if isinstance(nom[i], tuple):
                     # a line of white space only (a bare line ending, blanks) arrives before the reply: it is an empty read like a timeout
                     ev = nom[:i] + [("L", rng.choice(["", " ", "\t "]))] * rng.choice([1, 1, 2, 7]) + nom[i:]
